@@ -226,6 +226,8 @@ def run(m: Model, r: Report, tier: str) -> None:
             f"{rz.qualname}#default-session-offered", "session 1 must always be part of the model", loc=rz.loc)
     from checks.c16 import session_graph_rules
     session_graph_rules(m, r, "R4")
+    from sa.uds_rules import session_change_only_into_offered
+    session_change_only_into_offered(m, r, "R4")
     asrt = [f.qualname for f in us.methods.values() if "Virtual ECU in unsupported session" in ast.unparse(f.node)]
     r.extra["invariant_asserted_in"] = asrt
     for f in us.methods.values():
